@@ -53,3 +53,17 @@ func verifMemTableSize(def uint64) uint64 {
 	}
 	return def
 }
+
+// VerifNoAutoCompactions switches Pebble's background compactions off (they are real-time
+// background work: on a real directory the set of files a checkpoint holds would depend on
+// whether a compaction has finished, which a deterministic replay cannot tolerate). The
+// write stall that protects a database with too many level-0 files is lifted with it (a stalled
+// write would wait for a compaction that never comes).
+var VerifNoAutoCompactions bool
+
+func verifL0Stop() int {
+	if VerifNoAutoCompactions {
+		return 1 << 20
+	}
+	return 0
+}
